@@ -77,10 +77,9 @@ BfsLevels(Out, s) == BfsGrow(Out, {s}, <<{s}>>)
 ReachFrom(Out, s) == LET Lv == BfsLevels(Out, s) IN UNION {Lv[d] : d \in 1..Len(Lv)}
 (* = HopDist(n, Lm) = Dist(n, HopLen(n, Lm))                                       *)
 HopRowFast(n, Out, s) ==
-  LET Lv == BfsLevels(Out, s)
-      lev == FoldLeft(LAMBDA acc, d : [j \in Lv[d] |-> d - 1] @@ acc,
-                      [j \in {} |-> 0], [d \in 1..Len(Lv) |-> d])
-  IN EVec(n, LAMBDA j : IF j \in DOMAIN lev THEN lev[j] ELSE INF)
+  LET Lv == BfsLevels(Out, s) IN
+  FoldLeft(LAMBDA acc, d : FoldSet(LAMBDA j, a : [a EXCEPT ![j] = d - 1], acc, Lv[d]),
+           EVec(n, LAMBDA j : INF), [d \in 1..Len(Lv) |-> d])
 HopDistFast(n, Lm) == LET Out == OutNb(n, Lm) IN EVec(n, LAMBDA s : HopRowFast(n, Out, s))
 
 (* ONE relaxation pass decides whether `row` is the vector of distances from s,    *)
@@ -119,12 +118,14 @@ MeanInvBigInRange(n, D) ==
 MeanInvBigOK(obs6, n, D) ==
   LET np == n * (n - 1)
       fin == {p \in OffPairs(n) : D[p[1]][p[2]] < INF}
-      bag == BagOfCells(D, fin)
-      vals == DOMAIN bag
+      maxv == IF fin = {} THEN 0 ELSE MaxOf({MaxOf({D[i][j] : j \in {j \in 1..n : D[i][j] < INF}} \cup {0}) : i \in 1..n})
+      (* bag[v] = number of pairs at distance v, counted in one pass                   *)
+      bag == FoldSet(LAMBDA p, acc : [acc EXCEPT ![D[p[1]][p[2]]] = @ + 1], EVec(maxv, LAMBDA v : 0), fin)
+      vals == {v \in 1..maxv : bag[v] > 0}
       T9(c, q) == (c \div q) * 1000000000 + Digits(c % q, q, 9, 0)
       S9 == Sum(vals, LAMBDA v : T9(bag[v], v * np))
       K == Cardinality(vals)
-  IN IF 0 \in vals THEN obs6 = INF
+  IN IF \E p \in fin : D[p[1]][p[2]] = 0 THEN obs6 = INF
      ELSE /\ obs6 >= 0 /\ obs6 <= 1000000
           /\ obs6 * 1000 >= S9 - 501
           /\ obs6 * 1000 <= S9 + K + 501
